@@ -22,7 +22,7 @@ EPS = 0.05
 
 
 def plan(tier, seed):
-    n = 700 if tier == "quick" else 5000
+    n = 700 if tier == "quick" else 15000
     jobs = []
     for i, fw in enumerate(("twisted", "asyncio")):
         for sh in range(3 if tier == "quick" else 8):
